@@ -126,9 +126,19 @@ func significantNodes(nodes []*html.Node) []*html.Node {
 	return out
 }
 
-// isSoleTemplateRoot reports whether the component consists of exactly one <template> element
-// (whitespace and comments aside).
+// isSoleTemplateRoot reports whether the component consists of exactly one plain <template>
+// element (whitespace and comments aside).
 func isSoleTemplateRoot(nodes []*html.Node) bool {
 	sig := significantNodes(nodes)
-	return len(sig) == 1 && sig[0].Type == html.ElementNode && sig[0].Data == "template"
+	if len(sig) != 1 || sig[0].Type != html.ElementNode || sig[0].Data != "template" {
+		return false
+	}
+	// a <template> that carries a directive of its own is that directive's element (a loop, a
+	// condition, an include), not a root wrapper
+	for _, directive := range []string{"include", "v-if", "v-else-if", "v-else", "v-for"} {
+		if helpers.HasAttr(sig[0], directive) {
+			return false
+		}
+	}
+	return true
 }
